@@ -187,7 +187,9 @@ func buildStreamFieldMappingConverter[I any]() func(input streamReader) streamRe
 				var i I
 				return i, err
 			}
-			return t.(I), nil
+			// a chunk without any mapped value converts to the zero value of I, which is nil if I is an interface type
+			i, _ := t.(I)
+			return i, nil
 		}))
 	}
 }
